@@ -163,7 +163,7 @@ def rec_latex(text):
     return _latex_product(text, "num"), facts
 
 
-_SI = re.compile(r"\\(per)|\\(squared|cubed)|\\tothe\{(.*?)\}|\\([A-Za-z_]+)")
+_SI = re.compile(r"\\(per)(?![A-Za-z_])|\\(squared|cubed)(?![A-Za-z_])|\\tothe\{(.*?)\}|\\([A-Za-z_]+)")
 
 
 def rec_siunitx(text, prefixes):
